@@ -295,7 +295,7 @@ CLAIMED = {
         technique="Coq proof (loop = declarative gaps by induction; splice-site geometry) + exhaustive small-scope differential correspondence",
         design="4 (C15)"),
     "C17": dict(
-        text="Coq theorems (Properties/C17.v, 15 statements, closed under the global context): Attributes stores a sequence "
+        text="Coq theorems (Properties/C17.v, 16 statements, closed under the global context): Attributes stores a sequence "
              "whatever is set (scalar -> one-item list; list/tuple kept; other keys untouched); always_return_list changes only "
              "the view of one-item lists, never what is stored; attributes -> JSON text -> attributes is the identity incl. key "
              "order - relative to an abstract codec, and for the codec modelled as text (Model/Json.v: simplejson.dumps with "
